@@ -63,7 +63,7 @@ Print Assumptions C18_constructors_nonvacuous.
 Theorem C18_accessor_forms : forall S,
   tr_T3_pitch Rops S = dot3 Rops (tw_w S) (tw_v S) /\
   tr_T3_theta Rops S = norm3 Rops (tw_w S) /\
-  tr_T3_line Rops S = v6 (vsub3 Rops (vneg3 Rops (tw_v S)) (vscale3 Rops (tr_T3_pitch Rops S) (tw_w S))) (tw_w S).
+  tr_T3_line Rops S = v6 (vadd3 Rops (vneg3 Rops (tw_v S)) (vscale3 Rops (tr_T3_pitch Rops S) (tw_w S))) (tw_w S).
 Proof. intros. destruct_tuples. gen_unfold. repeat split; try ring; tuple_eq ltac:(ring). Qed.
 Print Assumptions C18_accessor_forms.
 
@@ -117,6 +117,55 @@ Proof.
   replace (0*0 + 0*0 + 0*0) with 0 by ring. rewrite sqrt_0. lra.
 Qed.
 Print Assumptions C18_prismatic_is_prismatic.
+
+(* ---------------------------------------------------------------- the other kinds of twist *)
+(* general unit screw about the line {q + l w} with pitch h: (v, w) = (-(w x q) + h w, w) *)
+Definition screw_tw (w q : V3 R) (h : R) : V6 R :=
+  v6 (vadd3 Rops (vneg3 Rops (cross3 Rops w q)) (vscale3 Rops h w)) w.
+
+Theorem C18_screw_accessors : forall w q h, dot3 Rops w w = 1 ->
+  let S := screw_tw w q h in
+  tr_T3_pitch Rops S = h /\ tr_T3_theta Rops S = 1 /\
+  cross3 Rops (vsub3 Rops (tr_T3_pole Rops S) q) w = (0,0,0) /\
+  tw_w (tr_T3_line Rops S) = w /\
+  cross3 Rops (vsub3 Rops (tr_Plucker_pp Rops (tr_T3_line Rops S)) q) w = (0,0,0) /\
+  bt_T3_isprismatic Rops S = false.
+Proof.
+  intros w q h Hw. unfold screw_tw. destruct_tuples. gen_unfold. rewrite !Hw, sqrt_1. replace (1 / 1) with 1 by field.
+  repeat split; try (tuple_eq ltac:(nsatz)); try nsatz. apply Rltb_false. lra.
+Qed.
+Print Assumptions C18_screw_accessors.
+
+(* line() of a unit screw of ANY pitch is the Pluecker line through q with direction w (fix 2c38430: the pitch term is
+   added to -v); more generally, for every twist with unit w (any v) it is the line through pole() with direction w, and
+   its coordinates satisfy the Pluecker constraint *)
+Theorem C18_screw_line : forall w q h, dot3 Rops w w = 1 ->
+  tr_T3_line Rops (screw_tw w q h) = tr_Plucker_PointDir Rops q w.
+Proof. intros w q h Hw. unfold screw_tw. destruct_tuples. gen_unfold. tuple_eq ltac:(nsatz). Qed.
+Print Assumptions C18_screw_line.
+
+Theorem C18_line_of_unit_twist : forall S, dot3 Rops (tw_w S) (tw_w S) = 1 ->
+  tr_T3_line Rops S = tr_Plucker_PointDir Rops (tr_T3_pole Rops S) (tw_w S) /\
+  dot3 Rops (tw_v (tr_T3_line Rops S)) (tw_w (tr_T3_line Rops S)) = 0.
+Proof.
+  intros S Hw. destruct_tuples. gen_unfold. rewrite !Hw, sqrt_1. replace (1 / 1) with 1 by field.
+  split; [tuple_eq ltac:(nsatz) | nsatz].
+Qed.
+Print Assumptions C18_line_of_unit_twist.
+
+(* theta() is the rotation magnitude for every kind: 0 for prismatic and zero twists, |k| |w| for a multiple *)
+Theorem C18_theta_other_kinds : forall (d : V3 R) S k,
+  tr_T3_theta Rops (prismatic_tw Rops d) = 0 /\ tr_T3_theta Rops (0,0,0,0,0,0) = 0 /\
+  tr_T3_theta Rops (tr_T3_smul Rops S k) = Rabs k * tr_T3_theta Rops S /\
+  tr_T3_pitch Rops (prismatic_tw Rops d) = 0.
+Proof.
+  intros. destruct_tuples. gen_unfold. repeat split.
+  - replace (0*0 + 0*0 + 0*0) with 0 by ring. apply sqrt_0.
+  - replace (0*0 + 0*0 + 0*0) with 0 by ring. apply sqrt_0.
+  - rewrite <- sqrt_sq_abs, <- sqrt_mult_alt by nra. f_equal. ring.
+  - ring.
+Qed.
+Print Assumptions C18_theta_other_kinds.
 
 (* through the constructors: Twist3.Revolute(a, q) for any admissible direction a *)
 Theorem C18_Revolute_accessors : forall a q, pc_tr_T3_Revolute Rops a q = true ->
